@@ -179,7 +179,8 @@ def s7(ck, an):
         a0 = fa.sym.canon(c.args[0]) if c.args else fa.sym.canon(next((k.value for k in c.keywords if k.arg == "now"), ast.Constant(value=None)))
         a1 = c.args[1] if len(c.args) > 1 else next((k.value for k in c.keywords if k.arg == "accrue"), None)
         ck.check(a0 == f"{reb}.time", "ARGFLOW", "S7.accrues-at-request-time", subj, fa.loc(c), "interest is accrued up to the request's time", f"accrued_interest(now={a0})", construct=stmt_text(c))
-        ck.check(isinstance(a1, ast.Constant) and a1.value is True, "ARGFLOW", "S7.accrue-true", subj, fa.loc(c), "rebalance accrues (accrue=True)", "rebalance only queries the interest", construct=stmt_text(c))
+        a1k = fa.sym.canon(a1, fa.node_of(c).id) if a1 is not None else None        # by value id: the flag may travel through a local
+        ck.check(a1k == "True", "ARGFLOW", "S7.accrue-true", subj, fa.loc(c), "rebalance accrues (accrue=True)", "rebalance only queries the interest", construct=stmt_text(c))
         st = enclosing_stmt(c)
         # some store to <request>.profit_on_idle_cash carries the value id of this very call (directly or through a temporary)
         rec = [x for x in all_stmts(fa) if isinstance(x, ast.Assign) and len(x.targets) == 1 and isinstance(x.targets[0], ast.Attribute) and x.targets[0].attr == "profit_on_idle_cash"
